@@ -53,13 +53,85 @@ def _affine(node, var: str) -> Optional[int]:
     return None
 
 
+def _negate(test: ast.AST) -> ast.AST:
+    if isinstance(test, ast.UnaryOp) and isinstance(test.op, ast.Not):
+        return test.operand
+    flip = {ast.Lt: ast.GtE, ast.LtE: ast.Gt, ast.Gt: ast.LtE, ast.GtE: ast.Lt, ast.Eq: ast.NotEq, ast.NotEq: ast.Eq}
+    if isinstance(test, ast.Compare) and len(test.ops) == 1 and type(test.ops[0]) in flip:
+        return ast.Compare(left=test.left, ops=[flip[type(test.ops[0])]()], comparators=test.comparators)
+    return ast.UnaryOp(op=ast.Not(), operand=test)
+
+
+def _canonical_while(fn_node: ast.AST) -> Optional[ast.AST]:
+    """`while True:` whose body starts with guard clauses  `if G_k: return buf[:v + c_k]`  rewritten as the equivalent
+        while (not G_1) and (not G_2) ...: <rest of the body>
+        if not G_1: v += c_2 - c_1          (two guards: leaving through the second one returns c_2 - c_1 more rows)
+        return buf[:v + c_1]
+    (the form the repository uses), so that one analysis serves both.  None if the function does not have this shape."""
+    import copy
+    loops = [n for n in fn_node.body if isinstance(n, ast.While)]
+    if len(loops) != 1 or not (isinstance(loops[0].test, ast.Constant) and loops[0].test.value is True) or loops[0].orelse:
+        return None
+    loop = loops[0]
+    body = list(loop.body)
+    guards = []
+    while body and isinstance(body[0], ast.If) and not body[0].orelse and len(body[0].body) == 1 and \
+            isinstance(body[0].body[0], ast.Return) and body[0].body[0].value is not None:
+        g = body.pop(0)
+        guards.append((g.test, g.body[0].value))
+    if not (1 <= len(guards) <= 2) or any(isinstance(n, (ast.Return, ast.Break)) for b in body for n in ast.walk(b)):
+        return None
+    li = fn_node.body.index(loop)
+    if fn_node.body[li + 1:]:
+        return None               # code after an endless loop is dead: not the modelled shape
+
+    def rows(expr):
+        """(buffer name, counter name, offset) of  buf[:v]  /  buf[:v + c]"""
+        if not (isinstance(expr, ast.Subscript) and isinstance(expr.value, ast.Name) and isinstance(expr.slice, ast.Slice)
+                and expr.slice.lower is None and expr.slice.step is None):
+            return None
+        up = expr.slice.upper
+        if isinstance(up, ast.Name):
+            return expr.value.id, up.id, 0
+        if isinstance(up, ast.BinOp) and isinstance(up.op, ast.Add):
+            for a_, b_ in ((up.left, up.right), (up.right, up.left)):
+                if isinstance(a_, ast.Name) and isinstance(b_, ast.Constant) and isinstance(b_.value, int):
+                    return expr.value.id, a_.id, b_.value
+        return None
+    rs = [rows(r) for _, r in guards]
+    if any(r is None for r in rs) or len({(r[0], r[1]) for r in rs}) != 1:
+        return None
+    buf, v, c1 = rs[0]
+    conts = [_negate(g) for g, _ in guards]
+    test = conts[0] if len(conts) == 1 else ast.BoolOp(op=ast.And(), values=conts)
+    new_loop = ast.While(test=test, body=body, orelse=[])
+    tail: List[ast.stmt] = []
+    if len(guards) == 2 and rs[1][2] != c1:
+        tail.append(ast.If(test=copy.deepcopy(conts[0]), body=[ast.AugAssign(
+            target=ast.Name(id=v, ctx=ast.Store()), op=ast.Add(), value=ast.Constant(value=rs[1][2] - c1))], orelse=[]))
+    up = ast.Name(id=v, ctx=ast.Load()) if c1 == 0 else ast.BinOp(left=ast.Name(id=v, ctx=ast.Load()), op=ast.Add(),
+                                                                 right=ast.Constant(value=c1))
+    tail.append(ast.Return(value=ast.Subscript(value=ast.Name(id=buf, ctx=ast.Load()),
+                                               slice=ast.Slice(lower=None, upper=up, step=None), ctx=ast.Load())))
+    new = copy.copy(fn_node)
+    new.body = fn_node.body[:li] + [new_loop] + tail
+    for n_ in [new_loop] + tail:
+        ast.copy_location(n_, loop)
+        ast.fix_missing_locations(n_)
+    return new
+
+
 def numpy_loop(ctx, fi, bounded_expected: bool):
     """Analyse `v = 0; while ...: ...; buf[v+k] = ...; v += 1` ... `return buf[:v]`."""
-    node = fi.node
+    node = _canonical_while(fi.node) or fi.node
     q = fi.qualname
     loops = [n for n in node.body if isinstance(n, ast.While)]
     if len(loops) != 1:
         raise AnalysisError(f"{q}: expected one top-level while loop")
+    if isinstance(loops[0].test, ast.Constant) and loops[0].test.value is True:
+        ctx.rep.note(f"{q}: the loop is `while True` with exits this rule does not model; the counter / capacity interval "
+                     f"argument (CAP-1) is not applicable to this shape of the code")
+        return
     loop = loops[0]
     li = node.body.index(loop)
     # counter: the variable incremented by 1 at the top level of the body
